@@ -38,7 +38,8 @@ def tset(xs):
 
 def cfg_gen(esc, kinds, invs, alphabet=NARROW, maxlen=0, qword=("a", "X", "_"), qfirst=None, qsegmax=0,
             qentrytok=("a", "-", "/"), qentrymax=3, palphabet=PALPHA, pmaxlen=0, pmaxpairs=0,
-            resqrt=("PHYSICS", "ANY"), resqroles=("r", "any"), resentries=("e",), rndmaxparts=2):
+            resqrt=("PHYSICS", "ANY"), resqroles=("r", "any"), resentries=("e",), rndmaxparts=2,
+            resbackends=("file", "consul")):
     return """SPECIFICATION Spec
 CONSTANTS
   AutoEscape = %s
@@ -58,12 +59,13 @@ CONSTANTS
   ResQRT = %s
   ResQRoles = %s
   ResEntries = %s
+  ResBackends = %s
   RndMaxParts = %d
 INVARIANTS DumpInv %s
 CHECK_DEADLOCK FALSE
 """ % ("TRUE" if esc else "FALSE", tset(kinds), tset(alphabet), maxlen, tset(qword), tset(qfirst or qword), qsegmax,
        tset(qentrytok), qentrymax, tset(palphabet), pmaxlen, pmaxpairs, tset(resqrt), tset(resqroles),
-       tset(resentries), rndmaxparts, invs)
+       tset(resentries), tset(resbackends), rndmaxparts, invs)
 
 
 def cfg_edit(esc, maxedits, maxseg):
@@ -87,6 +89,8 @@ CHECK_DEADLOCK FALSE
 
 
 SVC_INVS = "INVARIANTS TypeOK CacheTransparent RequestExact ResolvedExistsNow MostSpecificNow FaultNeverInventsEntry PayloadNow"
+KEYS = ["Pr", "Ar", "Pa", "Aa"]
+ALL_NBRS = [[KEYS[i] for i in range(4) if m >> i & 1] for m in range(16)]
 ALL_FAULTS = [[i + 1 for i in range(4) if m >> i & 1] for m in range(16)]
 
 
@@ -96,7 +100,7 @@ def fsets(fs):
 
 
 def cfg_svc(esc, maxsteps, varids, updids, require=True, gen=False, invs=True, focus=None, storeinit=(0, 1), editvals=(0, 1, 2),
-            backends=("file", "consul"), faults=ALL_FAULTS):
+            backends=("file", "consul"), faults=ALL_FAULTS, nbrinit=ALL_NBRS):
     return """SPECIFICATION %s
 CONSTANTS
   AutoEscape = %s
@@ -109,11 +113,13 @@ CONSTANTS
   EditVals = {%s}
   Backends = %s
   FaultSets = %s
+  NbrInit = %s
 %s
 %s
 CHECK_DEADLOCK FALSE
 """ % ("GenSpec" if gen else "Spec", "TRUE" if esc else "FALSE", maxsteps, ", ".join(map(str, varids)), ", ".join(map(str, updids)),
        "TRUE" if require else "FALSE", ", ".join(map(str, storeinit)), ", ".join(map(str, editvals)), tset(backends), fsets(faults),
+       "{" + ", ".join(tset(x) for x in nbrinit) + "}",
        ('  Focus = "%s"' % focus) if gen else "", SVC_INVS if invs else "")
 
 
@@ -130,6 +136,7 @@ CONSTANTS
   EditVals = {0, 1, 2}
   Backends = {"file"}
   FaultSets = %s
+  NbrInit = {{}}
 INVARIANT PrintEnd
 CHECK_DEADLOCK FALSE
 """ % ("TRUE" if esc else "FALSE", fsets(ALL_FAULTS))
@@ -153,7 +160,7 @@ def beh_to_scenario(sid, beh, origin="simulate"):
             step["parts"] = r["parts"]
         steps.append(step)
     scn = {"id": sid, "origin": origin, "backend": beh[0][2]["backend"], "content": from_tla(beh[0][2]["content"]),
-           "store": from_tla(beh[0][2]["store"]), "steps": steps}
+           "store": from_tla(beh[0][2]["store"]), "nbrs": sorted(from_tla(beh[0][2]["nbrs"])), "steps": steps}
     scn["concurrent_material"] = beh[0][2].get("foc") == "conc"      # read-only undisturbed requests only
     return scn
 
@@ -261,7 +268,7 @@ def run(ctx):
         ]
         nsim, nsimjobs, depth, maxedits, maxseg = 300, 1, 30, 2, 3
         svc_models = [("svc-model", cfg_svc(esc, 3, [3], [1], storeinit=[0], editvals=[0, 1],
-                                            faults=[[], [1], [2, 3], [1, 2, 3, 4]]))]
+                                            faults=[[], [1], [2, 3], [1, 2, 3, 4]], nbrinit=[KEYS]))]
         svc_nsim, svc_steps = 400, 9
         stress_runs, stress_repeat = 8, 60
     else:
@@ -280,8 +287,9 @@ def run(ctx):
             jobs.append(("str-catalogue-" + f, cfg_gen(esc, ["str"], INV_STR, qsegmax=2, qfirst=[f])))
         nsim, nsimjobs, depth, maxedits, maxseg = 1250, 2, 40, 3, 4
         svc_models = [("svc-model-render", cfg_svc(esc, 5, [1, 2, 3, 4, 5, 8], [1, 2, 4], storeinit=[0], editvals=[],
-                                                   backends=["file"], faults=[[]])),
-                      ("svc-model-store", cfg_svc(esc, 3, [], [], storeinit=[0, 1], editvals=[0, 1, 2]))]
+                                                   backends=["file"], faults=[[]], nbrinit=[[]])),
+                      ("svc-model-store", cfg_svc(esc, 3, [], [], storeinit=[0, 1], editvals=[0, 1, 2],
+                                                  nbrinit=[[], KEYS]))]
         svc_nsim, svc_steps = 2500, 14
         stress_runs, stress_repeat = 30, 80
 
@@ -408,15 +416,18 @@ def run(ctx):
     if not sbehs and not rsim.violated:
         ctx.save_debug(rsim, "tlc_sim_ConfigQuerySvcGen.txt")
         raise vlib.Inconclusive("TLC simulation of ConfigQuerySvcGen failed: %s" % vlib.tail(rsim.out))
-    nstress = 0
+    conc = []
     for b in sbehs:
         if len(b) > 1:
             scenarios.append(beh_to_scenario(len(scenarios) + 10, b))
-            if scenarios[-1].pop("concurrent_material") and nstress < stress_runs:
-                # free-running stress: 16 goroutines issue these requests over and over against the one service
-                nstress += 1
-                scenarios[-1]["origin"] = "simulate-concurrent"
-                scenarios[-1]["stress"] = {"workers": 16, "repeat": stress_repeat, "filler": 0}
+            if scenarios[-1].pop("concurrent_material"):
+                conc.append(scenarios[-1])
+    # free-running stress: 16 goroutines issue the requests of a read-only behaviour over and over against the one service;
+    # the behaviours with the most look-ups (each re-reads the store) are taken
+    conc.sort(key=lambda x: (-sum(1 for st in x["steps"] if st["a"] in ("Resolve", "GetX")), x["id"]))
+    for x in conc[:stress_runs]:
+        x["origin"] = "simulate-concurrent"
+        x["stress"] = {"workers": 16, "repeat": stress_repeat, "filler": 0}
     ctx.model_runs.append({"module": "ConfigQuerySvcGen", "cfg": "simulate", "behaviours": len(sbehs),
                            "result": "ok" if not rsim.violated else "violated", "wall_s": round(rsim.wall, 1)})
     ctx.log("generated %d request sequences (%d requests)" % (len(scenarios), sum(len(x["steps"]) for x in scenarios)))
